@@ -303,6 +303,19 @@ def run(ctx):
             if via != direct:
                 ctx.violation('generic-respond-differs', f'Generic.respond({header!r}) -> {via} but get_encoder -> {direct}',
                               {'header': header})
+            # the serving path hands Generic.respond the accept list of the layout.Request: exactly the client's ranges when
+            # an Accept header was given, the request's own encoding only when there was none
+            ctx.count('request_accept_checked')
+            content = layout.Encoding(rng.choice(['text/csv', 'application/json']), **dict(rng.sample([('format', 'pandas-records')], rng.choice([0, 1]))))
+            try:
+                with_accept = layout.Request(b'x', content, {}, accept)
+                without = layout.Request(b'x', content)
+                seen = (tuple(with_accept.accept), tuple(without.accept))
+            except Exception as err:  # pylint: disable=broad-except
+                seen = repr(err)
+            if seen != (tuple(accept), (content,)):
+                ctx.violation('request-accept-differs-from-header', f'layout.Request(content type {content.header!r}, Accept {header!r}) '
+                              f'negotiates over {seen}', {'header': header})
     ctx.sample({'header': header, 'parsed': [as_pair(e) for e in layout.Encoding.parse(header)]})
     # -------- match: all pairs over the universe (every shard does a slice)
     optsets = [{}, {'a': 'x'}, {'a': 'y'}, {'a': 'x', 'format': 'pandas-records'}, {'format': 'pandas-records'}, {'a': 'X'},
